@@ -1,0 +1,16 @@
+//go:build verif
+// +build verif
+
+package raft
+
+// This file is only compiled with the "verif" build tag (verification
+// harness for property C17). It adds code only: the harness makes the leader
+// hand over the leadership while one of its own AddPeer / RmPeer calls is
+// between looking up the leader and calling Raft, so that the retry path of
+// the leader-side call (a failed Raft future, then a redirect) is observed.
+
+// VerifLeadershipTransfer asks the local Raft instance, which must be the
+// leader, to transfer the leadership to another voter and waits for it.
+func (cc *Consensus) VerifLeadershipTransfer() error {
+	return cc.raft.raft.LeadershipTransfer().Error()
+}
